@@ -41,8 +41,10 @@ NZ = 'nonzero'
 
 
 class PathInterp:
-    def __init__(self, fn, sinks, valuation=None, evaluator=SymEval, max_paths=256, store_prefixes=()):
+    def __init__(self, fn, sinks, valuation=None, evaluator=SymEval, max_paths=256, store_prefixes=(), inline=None):
         self.fn = fn
+        self.inline = dict(inline or {})     # callee text ('helper' or 'self.helper') -> FunctionDef interpreted in place
+        self._depth = 0
         self.sinks = set(sinks)
         self.valuation = dict(valuation or {})
         self.evaluator = evaluator
@@ -87,12 +89,44 @@ class PathInterp:
                     args = [self.ev(a) for a in n.args]
                     interp._path.sinks.append((f, args, tuple(interp._tags), n))
                     return L('%s@%d' % (f, len(interp._path.sinks)))
+                if f in interp.inline and interp._depth < 4:
+                    return interp._inline_call(f, n, self)
                 return super().call(n)
 
             def ifexp(self, n):
                 d = interp._decide(n.test, self)
                 return self.ev(n.body) if d else self.ev(n.orelse)
         return E()
+
+    def _inline_call(self, f, n, ev):
+        """Interpret a helper in place: its sink calls, decisions and loop tags belong to the caller's path."""
+        callee = self.inline[f]
+        params = [a.arg for a in callee.args.args]
+        if f.startswith('self.') and params and params[0] == 'self':
+            params = params[1:]
+        if len(n.args) > len(params) or any(k.arg not in params for k in n.keywords):
+            return L('?call(%s)' % norm(n))
+        frame = type(ev)()
+        frame.env = {k: v for k, v in ev.env.items() if k.startswith('self.')}
+        dflt = callee.args.defaults
+        for prm, d in zip(params[len(params) - len(dflt):], dflt):
+            frame.env[prm] = frame.ev(d)
+        for prm, a in zip(params, n.args):
+            frame.env[prm] = ev.ev(a)
+        for k in n.keywords:
+            frame.env[k.arg] = ev.ev(k.value)
+        self._depth += 1
+        try:
+            self._block(callee.body, frame)
+            ret = None
+        except _Return as r:
+            ret = r.value
+        finally:
+            self._depth -= 1
+        for k, v in frame.env.items():
+            if k.startswith('self.'):
+                ev.env[k] = v
+        return ret if ret is not None else L('None')
 
     # ------------------------------------------------------------------ conditions
     def _const(self, e, ev):
